@@ -10,6 +10,7 @@ import (
 
 	"github.com/deadsy/sdfx/sdf"
 	v2 "github.com/deadsy/sdfx/vec/v2"
+	"github.com/deadsy/sdfx/vec/v2i"
 	v3 "github.com/deadsy/sdfx/vec/v3"
 	"github.com/deadsy/sdfx/vec/v3i"
 )
@@ -233,6 +234,12 @@ func buildModel2(name string, lw *leafWrapper) sdf.SDF2 {
 		return sdf.Union2D(must2(sdf.Circle2D(5)), sdf.RotateCopy2D(t, 9))
 	case "cache-poly":
 		return sdf.Cache2D(lw.w2(starPolygon()))
+	case "washer": // an annulus: the outline passes through nearly every square of a coarse grid
+		return sdf.Difference2D(lw.w2(must2(sdf.Circle2D(10))), lw.w2(must2(sdf.Circle2D(6.5))))
+	case "grid2d": // a lattice of holes in a plate: no square of a coarse grid is empty
+		plate := lw.w2(sdf.Box2D(v2.Vec{X: 20, Y: 20}, 1))
+		hole := lw.w2(must2(sdf.Circle2D(1.6)))
+		return sdf.Difference2D(plate, sdf.Transform2D(sdf.Array2D(hole, v2i.Vec{X: 4, Y: 4}, v2.Vec{X: 5, Y: 5}), sdf.Translate2d(v2.Vec{X: -7.5, Y: -7.5})))
 	}
 	panic("unknown 2d model " + name)
 }
